@@ -38,8 +38,8 @@ var controlNames = []string{"end", "return", "goto", "call", "goto_if_set", "got
 const identRe = `(re.++ (re.union (re.range "A" "Z") (re.range "a" "z") (str.to_re "_")) (re.* (re.union (re.range "A" "Z") (re.range "a" "z") (re.range "0" "9") (str.to_re "_"))))`
 const digitsSuffixRe = `(re.++ re.all (str.to_re "_") (re.+ (re.range "0" "9")))`
 
-// printable ASCII except '"' and '\'
-const lineRe = `(re.* (re.union (re.range " " "!") (re.range "#" "[") (re.range "]" "~")))`
+// printable ASCII except '"'
+const lineRe = `(re.* (re.union (re.range " " "!") (re.range "#" "~")))`
 const pathRe = `(re.+ (re.union (re.range "#" "[") (re.range "]" "~") (str.to_re "!") (str.to_re "\u{5c}")))`
 
 var goIdentRe = regexp.MustCompile(`^[A-Za-z_][A-Za-z0-9_]*$`)
@@ -55,6 +55,10 @@ type Atom struct {
 	NotLits []string
 	// Fixed makes the atom concrete (used by replay and by concrete variants).
 	Fixed *string
+	// NonEmpty: the atom is not the empty string (a string literal that is
+	// followed by another literal: the lexer joins them with a newline only
+	// when the text so far is non-empty).
+	NonEmpty bool
 
 	// set per path
 	Var   string       // SMT variable (String, or Int for ClsNum)
@@ -162,12 +166,17 @@ func (t *AtomTable) Declare(c *interp.Ctx, values map[int]string) {
 			// placeholders themselves are reserved words of the checker
 			c.Assume(fmt.Sprintf("(not (str.prefixof \"zq\" %s))", name))
 		case ClsLine:
+			c.Atoms[name] = &interp.AtomInfo{Name: name, Class: "line", NoBytes: "ctl\""}
+			if a.NonEmpty {
+				c.Assume(fmt.Sprintf("(> (str.len %s) 0)", name))
+			}
 			c.Assume(fmt.Sprintf("(str.in_re %s %s)", name, lineRe))
 			for _, k := range a.NotLits {
 				c.Assume(fmt.Sprintf("(not (= %s %s))", name, interp.StrLit(k)))
 			}
 			c.Assume(fmt.Sprintf("(not (str.contains %s \"zq\"))", name))
 		case ClsPath:
+			c.Atoms[name] = &interp.AtomInfo{Name: name, Class: "path", NoBytes: "ctl\" "}
 			c.Assume(fmt.Sprintf("(str.in_re %s %s)", name, pathRe))
 		}
 		if a.Group != "" {
